@@ -33,7 +33,7 @@ DECIMAL = ("2000", "20000")              # 2 mL and 20 mmol per model unit (W: 1
                                          # short decimals and stay in the range where the library's 1e-10 rounding is effective
 MICRO = ("36.0306", "1")                 # 36 uL / 1 umol per unit (a heavy solute): the scale of a well, where absolute
                                          # thresholds and roundings in base units (mol, L) show
-NANO = ("36.0306", "0.001")              # 36 uL / 1 nmol per unit: one step from the initial state only
+NANO = ("36.0306", "0.00137")             # 36 uL / 1.37 nmol per unit (not a multiple of 0.1 nmol): one step from the initial state only
 TINY = ("36.0306", "0.1")                # 36 uL / 0.1 umol per unit: sub-micromole amounts (a heavy solute)
 BIG = ("1801530", "100000000")           # 1.8 L / 100 mol per unit: stays far above the rounding quantum of every storage configuration
 
